@@ -43,6 +43,27 @@ theorem fact_is_committed :
        "changeHash := hash.SHA256Sum([]byte(change.DIDDocumentVersion.Raw))",
        "return meta.Hash.Equals(changeHash), nil"] := by decide
 
+/-- wave 9: `verifyThumbprint` compares TEXT with TEXT — the base64url encoding of the calculated thumbprint against the id
+    fragment as it stands; nothing is decoded (a lenient decoder maps 4 spellings, and spellings with CR/LF, to the same bytes) -/
+theorem fact_thumbprint_id_comparison_is_textual :
+    Facts.C09.thumbprintIdComparison =
+      ["if base64.RawURLEncoding.EncodeToString(thumbprint) != method.ID.Fragment => return errors.New(\"key thumbprint does not match ID\")"] := by
+  rfl
+
+/-- **Another spelling of the same bytes is not the thumbprint**: whatever decoder `dec` one has in mind, a fragment that
+    decodes to the same bytes as the thumbprint text but is a different string is refused by the key-id rule -/
+theorem noncanonical_thumbprint_spelling_refused (thumb : Key → String) (ne : Bool) (owner : String) (v : NVM) (k : Key)
+    (dec : String → List Nat) (vs : List NVM) (known : List String)
+    (hk : v.key = .key k) (_hdec : dec v.frag = dec (thumb k)) (hne : v.frag ≠ thumb k)
+    (hid : entryIdErr true true true owner v.id v.pfx v.frag known = none) :
+    validateVMs thumb ne allOn owner (v :: vs) known = .err "validate:vm:thumbprint" := by
+  unfold validateVMs
+  simp only [allOn, hid, hk]
+  simp [Ne.symm hne]
+
+example : validateVMs (fun k => k) true allOn "did:nuts:A"
+    [{ id := "did:nuts:A#abcB", pfx := "did:nuts:A", frag := "abcB", key := .key "abcA" }] [] = .err "validate:vm:thumbprint" := by decide
+
 /-! ### go-did's removal -/
 
 theorem keepVM_iff (kid : String) (v : NVM) : keepVM kid v = true ↔ v.id ≠ kid := by
